@@ -65,6 +65,9 @@ func BigNewInt(v int64) *big.Int { return BigSetInt64(new(big.Int), v) }
 
 // zero test as one decision (not one per leading byte)
 func isZeroMag(m []byte) bool {
+	if !vConcreteLen(m) {
+		return len(stripZeros(m)) == 0
+	}
 	if len(m) == 0 {
 		return true
 	}
@@ -96,6 +99,9 @@ func BigBitLen(z *big.Int) int {
 // Cmp on magnitudes (non-negative values only): two decisions on the zero-extended values
 func BigCmp(x, y *big.Int) int {
 	a, b := bigMag[x], bigMag[y]
+	if !vConcreteLen(a) || !vConcreteLen(b) {
+		return bigCmpBytewise(stripZeros(a), stripZeros(b))
+	}
 	if len(a) == 0 && len(b) == 0 {
 		return 0
 	}
@@ -104,6 +110,24 @@ func BigCmp(x, y *big.Int) int {
 	}
 	if vBytesLess(b, a) {
 		return 1
+	}
+	return 0
+}
+
+func bigCmpBytewise(a, b []byte) int {
+	if len(a) != len(b) {
+		if len(a) < len(b) {
+			return -1
+		}
+		return 1
+	}
+	for i := range a {
+		if a[i] != b[i] {
+			if a[i] < b[i] {
+				return -1
+			}
+			return 1
+		}
 	}
 	return 0
 }
@@ -130,4 +154,77 @@ func BigAdd(z, x, y *big.Int) *big.Int {
 	bigMag[z] = vUFN("big_add", n+1, bigMag[x], bigMag[y])
 	bigSet[z] = true
 	return z
+}
+
+// group "edinv": what the real (*Scalar).ModInverse of the Ed25519 fork needs from math/big, so
+// that its byte shuffling is executed from source: exact Add, ModInverse modulo l as the same
+// involution the abstract scalar model uses, and Bits() (little-endian words of the magnitude).
+func BigAddExact(z, x, y *big.Int) *big.Int {
+	a, b := bigMag[x], bigMag[y]
+	n := len(a)
+	if len(b) > n {
+		n = len(b)
+	}
+	n++
+	out := make([]byte, n)
+	var carry uint16
+	for i := 0; i < n; i++ {
+		var av, bv uint16
+		if i < len(a) {
+			av = uint16(a[len(a)-1-i])
+		}
+		if i < len(b) {
+			bv = uint16(b[len(b)-1-i])
+		}
+		s := av + bv + carry
+		out[n-1-i] = byte(s)
+		carry = s >> 8
+	}
+	bigMag[z] = out
+	bigSet[z] = true
+	return z
+}
+
+func EdInvModInverse(z, g, n *big.Int) *big.Int {
+	l := []byte{0x10, 0, 0, 0, 0, 0, 0, 0, 0, 0, 0, 0, 0, 0, 0, 0, 0x14, 0xde, 0xf9, 0xde, 0xa2, 0xf7, 0x9c, 0xd6, 0x58, 0x12, 0x63, 0x1a, 0x5c, 0xf5, 0xd3, 0xed}
+	if !vBytesEq(stripZeros(bigMag[n]), l) {
+		panic("ed model: ModInverse with a modulus other than the group order l")
+	}
+	if len(bigMag[g]) > 32 {
+		panic("ed model: ModInverse of more than 32 bytes")
+	}
+	if isZeroMag(bigMag[g]) {
+		return nil
+	}
+	le := make([]byte, 32)
+	for i := range bigMag[g] {
+		le[i] = bigMag[g][len(bigMag[g])-1-i]
+	}
+	inv := vUF("perm_sc_inv", 32, le)
+	vAssume(vBytesEq(vUF("perm_sc_inv", 32, inv), le))
+	vAssume(!vBytesEq(inv, make([]byte, 32))) // the inverse of a unit is not zero
+	scCanonical(inv)
+	be := make([]byte, 32)
+	for i := range inv {
+		be[31-i] = inv[i]
+	}
+	bigMag[z] = be
+	bigSet[z] = true
+	return z
+}
+
+func BigBits(z *big.Int) []big.Word {
+	m := stripZeros(bigMag[z])
+	out := make([]big.Word, (len(m)+7)/8)
+	for i := range out {
+		var w uint64
+		for j := 0; j < 8; j++ {
+			idx := len(m) - 1 - (8*i + j)
+			if idx >= 0 {
+				w |= uint64(m[idx]) << (8 * uint(j))
+			}
+		}
+		out[i] = big.Word(w)
+	}
+	return out
 }
